@@ -357,9 +357,9 @@ func gen(c *harness.C) []harness.Case {
 		c.Note("c20-race", "binary built without -race: no detection")
 	}
 	var fams []fam
-	b2, b3 := 2, 1
+	b2, b3 := 3, 1
 	if c.Thorough() {
-		b2, b3 = 3, 2
+		b2, b3 = 4, 2
 	}
 	for _, sc := range boxlib.Scenarios(c.Thorough()) {
 		sc := sc
